@@ -54,6 +54,49 @@ mod schema {
     }
 }
 
+/// Verification hooks: the prost-generated `bitswap.proto` messages and thin wrappers around the
+/// private CID prefix parser and block verifier. Adds code only.
+#[cfg(feature = "verif")]
+pub mod verif {
+    pub use super::schema::bitswap::{
+        wantlist::Entry as SchemaEntry, Block as SchemaBlock, BlockPresence as SchemaBlockPresence,
+        Message as SchemaMessage, Wantlist as SchemaWantlist,
+    };
+
+    /// `Prefix::from_bytes` as `(version, codec, multihash_type, multihash_len)`.
+    pub fn verif_prefix_from_bytes(bytes: &[u8]) -> Option<(u64, u64, u64, u8)> {
+        super::Prefix::from_bytes(bytes).map(|prefix| {
+            (
+                prefix.version.into(),
+                prefix.codec,
+                prefix.multihash_type,
+                prefix.multihash_len,
+            )
+        })
+    }
+
+    /// `Prefix::to_bytes` of a prefix given as `(version, codec, multihash_type, multihash_len)`.
+    pub fn verif_prefix_to_bytes(version: u64, codec: u64, mh_type: u64, mh_len: u8) -> Option<Vec<u8>> {
+        Some(
+            super::Prefix {
+                version: super::Version::try_from(version).ok()?,
+                codec,
+                multihash_type: mh_type,
+                multihash_len: mh_len,
+            }
+            .to_bytes(),
+        )
+    }
+
+    /// `block_to_response` on a received block; the CID bytes of the accepted block.
+    pub fn verif_block_to_response(peer: &crate::PeerId, prefix: Vec<u8>, data: Vec<u8>) -> Option<Vec<u8>> {
+        match super::block_to_response(peer, SchemaBlock { prefix, data })? {
+            super::ResponseType::Block { cid, .. } => Some(cid.to_bytes()),
+            _ => None,
+        }
+    }
+}
+
 /// Log target for the file.
 const LOG_TARGET: &str = "litep2p::ipfs::bitswap";
 
